@@ -204,8 +204,30 @@ def mutate(rng, a):
     return a, op
 
 
+def respelled_sharing(rng):
+    """one sub-proposition written out twice under two parents, identical in every respect, with its leaves spelled
+    independently each time (id string / variable object / subclass instance) and listed in any order"""
+    names = rng.sample(["a", "b", "c", "k1", "k10", "B", "z"], rng.randint(2, 4))
+    cls = rng.choice(["Any", "All", "AtMost", "AtLeast", "Xor"])
+    def occurrence():
+        kids = []
+        for n in rng.sample(names, len(names)):
+            r = rng.random()
+            kids.append({"c": "str", "id": n} if r < 0.5 else {"c": "var", "id": n, "lo": 0, "hi": 1, **({"$sub": True} if r > 0.85 else {})})
+        x = {"c": cls, "args": kids, "id": "X"}
+        if cls in ("AtMost", "AtLeast"): x["v"] = 1
+        return x
+    S = lambda i: {"c": "str", "id": i}
+    p1 = {"c": rng.choice(["Any", "All"]), "args": [S("p"), occurrence()], "id": "L"}
+    p2 = {"c": rng.choice(["Any", "All", "Imply"]), "args": [S("q"), occurrence()], "id": "R"}
+    if p2["c"] == "Imply": p2 = {"c": "Imply", "cond": occurrence(), "cons": S("q"), "id": "R"}
+    return {"c": rng.choice(["All", "Any"]), "args": [p1, p2], "id": "T"}
+
+
 def run(ctx):
     rng = ctx.rng
+    for _ in range((60 if ctx.quick else 400) * (3 if ctx.search else 1)):
+        do_case(ctx, {"ast": respelled_sharing(rng), "stream": "valid", "mut": "respelled-sharing"})
     n = (450 if ctx.quick else 3000) * (3 if ctx.search else 1)
     for _ in range(n):
         a, o, t = gen_valid(rng, ctx.quick, empty_p=0.04)
